@@ -19,7 +19,7 @@ type lexTok struct {
 	text string // spelling
 }
 
-var sepPool = []string{" ", "\t", "\n", "\r", "\r\n", "\f", "\x00", "  ", " % comment\n", "%c\r", "% x\r\n", "\n% a % b\n "}
+var sepPool = []string{" ", "\t", "\n", "\r", "\r\n", "\f", "\x00", "  ", " % comment\n", "%c\r", "% x\r\n", "\n% a % b\n ", "% ends at a form feed\f", "\n%%Key: v\f", "\f%%+\f"}
 
 func regularTokKind(k string) bool { return k == "int" || k == "real" || k == "name" || k == "op" }
 
